@@ -51,6 +51,8 @@ type syDrv struct {
 	kinds    []string
 	terms    []uint64
 	sizes    []int
+	keys     []int // key id (1..3) of a "set" entry, 0 otherwise
+	ageDays  int   // raft timestamps of the source entries lie this many days in the past
 	baseTs   int64
 	nseg     int
 	cnt      map[string]int
@@ -75,17 +77,30 @@ func (d *syDrv) makeSource(n int) {
 	d.kinds = make([]string, n)
 	d.terms = make([]uint64, n)
 	d.sizes = make([]int, n)
+	d.keys = make([]int, n)
 	t := uint64(2)
 	for i := 0; i < n; i++ {
 		if d.rng.Intn(15) == 0 {
 			t++
 		}
 		d.terms[i] = t
-		switch d.rng.Intn(3) {
-		case 0:
+		c := d.rng.Intn(20)
+		if i > 0 && d.kinds[i-1] == "set" && d.rng.Intn(3) == 0 {
+			c = 14 // a failing batchable write directly behind a batched one (same open write batch)
+		}
+		switch {
+		case c < 5:
 			d.kinds[i] = "incr"
-		case 1:
+		case c < 9:
 			d.kinds[i] = "lpush"
+		case c < 14:
+			// a batchable write (rockredis keeps it in the apply loop's open write batch)
+			d.kinds[i] = "set"
+			d.keys[i] = 1 + d.rng.Intn(3)
+		case c < 16:
+			// a batchable write that FAILS when it is applied (field longer than MaxSubKeyLen):
+			// no effect, but the entry has been gone through
+			d.kinds[i] = "fail"
 		default:
 			d.kinds[i] = "append"
 			d.sizes[i] = len(syToken(i+1, 0))
@@ -96,7 +111,7 @@ func (d *syDrv) makeSource(n int) {
 			}
 		}
 	}
-	d.baseTs = time.Now().UnixNano()
+	d.baseTs = time.Now().UnixNano() - int64(d.ageDays)*86400*int64(time.Second)
 }
 
 func syToken(i, pad int) string {
@@ -111,6 +126,10 @@ func (d *syDrv) entry(i int, corrupt bool) syncerpb.RaftLogData {
 		args = [][]byte{[]byte("incr"), []byte("t:cnt")}
 	case "lpush":
 		args = [][]byte{[]byte("lpush"), []byte("t:lst"), []byte(strconv.Itoa(i))}
+	case "set":
+		args = [][]byte{[]byte("set"), []byte("t:k" + strconv.Itoa(d.keys[i-1])), []byte("s" + strconv.Itoa(i))}
+	case "fail":
+		args = [][]byte{[]byte("hmset"), []byte("t:h"), []byte(strings.Repeat("f", common.MaxSubKeyLen+50)), []byte("v")}
 	default:
 		base := len(syToken(i, 0))
 		args = [][]byte{[]byte("append"), []byte("t:str"), []byte(syToken(i, d.sizes[i-1]-base))}
@@ -169,6 +188,18 @@ func syIds(s string) []int {
 	return ids
 }
 
+func (d *syDrv) readKV() []int {
+	st := d.nd().VerifSyncStore()
+	out := []int{0, 0, 0}
+	for k := 1; k <= 3; k++ {
+		v, _ := st.KVGet([]byte("t:k" + strconv.Itoa(k)))
+		if len(v) > 1 {
+			out[k-1], _ = strconv.Atoi(string(v[1:]))
+		}
+	}
+	return out
+}
+
 func (d *syDrv) readData() (cnt int, lst []int, strids []int, strlen int, err error) {
 	st := d.nd().VerifSyncStore()
 	v, e := st.KVGet([]byte("t:cnt"))
@@ -204,7 +235,7 @@ func (d *syDrv) obs(after string) {
 		es = "barrier: " + berr.Error()
 	}
 	d.emit(trace.M{"ev": "obs", "after": after, "st": st, "si": si, "cnt": cnt, "lst": lst, "strids": strids,
-		"strlen": strlen, "snapi": nd.GetLastSnapIndex(), "err": es})
+		"strlen": strlen, "kv": d.readKV(), "snapi": nd.GetLastSnapIndex(), "err": es})
 	d.count("obs")
 }
 
@@ -548,6 +579,7 @@ func syncsim(args []string) error {
 	seed := fs.Int64("seed", 1, "")
 	nsrc := fs.Int("n", 80, "length of the source log")
 	perRecv := fs.Int("per", 6, "TLC behaviours executed per receiver (each on a fresh source cluster name is not possible; a receiver is restarted from scratch)")
+	age := fs.Int("agedays", 0, "raft timestamps of the source entries lie this many days in the past (an old backlog)")
 	restarts := fs.Bool("restarts", true, "restart the receiving raft group from its snapshot now and then")
 	fs.Parse(args)
 	_ = perRecv
@@ -566,9 +598,9 @@ func syncsim(args []string) error {
 	if err != nil {
 		return err
 	}
-	d := &syDrv{eng: *et, base: base, rng: rand.New(rand.NewSource(*seed)), tw: tw, cnt: map[string]int{}, restarts: *restarts}
+	d := &syDrv{eng: *et, base: base, rng: rand.New(rand.NewSource(*seed)), tw: tw, cnt: map[string]int{}, restarts: *restarts, ageDays: *age}
 	d.makeSource(*nsrc)
-	d.emit(trace.M{"ev": "source", "n": d.n, "kinds": d.kinds, "terms": d.terms, "sizes": d.sizes})
+	d.emit(trace.M{"ev": "source", "n": d.n, "kinds": d.kinds, "terms": d.terms, "sizes": d.sizes, "keys": d.keys, "agedays": d.ageDays})
 	failed := 0
 	guard := func(f func() error) {
 		defer func() {
